@@ -278,6 +278,8 @@ pub(crate) fn sign_internal<
         let r0_norm = infinity_norm(&r0);
         // CTEST is used only for constant-time measurements via `dudect`
         if !CTEST && ((z_norm >= (gamma1 - beta)) || (r0_norm >= (gamma2 - beta))) {
+            #[cfg(feature = "verif-hooks")]
+            crate::verif_hooks::emit("sign_attempt", [i64::from(kappa_ctr), i64::from(z_norm), i64::from(r0_norm), -1, -1, 1, 0, 0]);
             kappa_ctr += u16::try_from(L).expect("cannot fail; L is static parameter");
             continue;
             //
@@ -313,6 +315,8 @@ pub(crate) fn sign_internal<
             && ((infinity_norm(&c_t_0) >= gamma2)
                 || (h.iter().map(|h_i| h_i.0.iter().sum::<i32>()).sum::<i32>() > omega))
         {
+            #[cfg(feature = "verif-hooks")]
+            crate::verif_hooks::emit("sign_attempt", [i64::from(kappa_ctr), i64::from(z_norm), i64::from(r0_norm), i64::from(infinity_norm(&c_t_0)), i64::from(h.iter().map(|h_i| h_i.0.iter().sum::<i32>()).sum::<i32>()), 2, 0, 0]);
             kappa_ctr += u16::try_from(L).expect("cannot fail; L is static parameter");
             continue;
             // 29: end if
@@ -323,6 +327,8 @@ pub(crate) fn sign_internal<
         // 31: κ ← κ + ℓ ▷ Increment counter
         // this is done just prior to each of the 'continue' statements above
 
+        #[cfg(feature = "verif-hooks")]
+        crate::verif_hooks::emit("sign_attempt", [i64::from(kappa_ctr), i64::from(z_norm), i64::from(r0_norm), i64::from(infinity_norm(&c_t_0)), i64::from(h.iter().map(|h_i| h_i.0.iter().sum::<i32>()).sum::<i32>()), 0, 0, 0]);
         // if we made it here, we passed the 'continue' conditions, so have a solution
         break;
 
